@@ -21,9 +21,11 @@ ExactSampler(default_shots=1024, mode="integer" | "fractional", observer=None)  
     `sampler.calls` records [(circuit name, shots), ...] per run().
     Set `sampler.fail_next = k` to make the next k JOBS fail (job.result() raises InjectedPrimitiveFailure).
 
-ExactEstimator(observer=None)   (a BaseEstimatorV2)
+ExactEstimator(observer=None, default_precision=0.0)   (a BaseEstimatorV2)
     run(pubs, *, precision=None): exact Statevector expectation values whatever precision is requested (Qiskit's
-    StatevectorEstimator adds Gaussian noise for precision != 0); stds = 0.  `observer`, `.calls`, `.fail_next` as above.
+    StatevectorEstimator adds Gaussian noise for precision != 0); stds = 0.  `observer`, `.calls`, `.fail_next` as above.  `default_precision` only decides which precision a pub is
+    RECORDED with when neither the pub nor run() names one (as a real estimator's default would apply); the values stay
+    exact.  The observer / `.calls` therefore show whether a wrapper forwarded the caller's precision (0.0 included).
 
 exact_estimator() -> qiskit.primitives.StatevectorEstimator(default_precision=0.0)
     Qiskit's own exact estimator (exact only while callers pass precision 0 / None).
@@ -212,12 +214,13 @@ class ExactSampler(BaseSamplerV2):
 class ExactEstimator(BaseEstimatorV2):
     """Estimator returning exact Statevector expectation values for every requested precision."""
 
-    def __init__(self, observer: Optional[Callable] = None):
+    def __init__(self, observer: Optional[Callable] = None, default_precision: float = 0.0):
         self.observer = observer
+        self.default_precision = default_precision
         self.calls: list[list[tuple[str, float]]] = []
 
     def run(self, pubs: Iterable, *, precision: Optional[float] = None):
-        coerced = [EstimatorPub.coerce(pub, 0.0 if precision is None else precision) for pub in pubs]
+        coerced = [EstimatorPub.coerce(pub, self.default_precision if precision is None else precision) for pub in pubs]
         self.calls.append([(p.circuit.name, p.precision) for p in coerced])
         if self.observer is not None:
             self.observer(coerced)
